@@ -24,13 +24,21 @@ COQ_TARGETS = ['props/C08.vo']
 TRUSTED = ['coq/spec/Walker.v is the definition of "structurally valid" (reviewed against RFC 4271, 4760, '
            '5492, 6793, 7911, 4360, 8092, 4456, 8277, 4364, 7432, 9136, 8955, 8956, 9012, 9830, 6514)',
            'harness/props/c08.py prints the implementation\'s octets as Coq lists (coq_bytes)']
-ASSUMPTIONS = ['the C08_*_valid theorems are about the hand-written models model/YMsg.v (NOTIFICATION, KEEPALIVE, '
-               'ROUTE-REFRESH), YPrefix4.v (IPv4 prefix lists) and YAttr.v (ten standard attributes, one at a time); '
-               'the models are tied to yabgp by the correspondence runs of C14 and C06 (the small-message part is '
-               're-run here); YPrefix4.v models the code repaired by build/proposed/c06-prefix-zero-length.diff',
-               'OPEN, EXTENDED/LARGE COMMUNITIES, the assembly of a whole UPDATE, and every constructor without a '
-               'model (MP families, tunnel encapsulation, SR-TE, PMSI, flowspec) are covered by the walker run on the '
-               'implementation over the generated input space only (test level, not proof)',
+ASSUMPTIONS = ['the C08_*_valid theorems are about the hand-written models: model/YMsg.v (NOTIFICATION, KEEPALIVE, '
+               'ROUTE-REFRESH), YPrefix4.v (IPv4 prefix lists), YAttr.v (the twelve standard attributes), YOpen.v (OPEN), '
+               'YUpdate.v (construct_attributes / Update.construct), YMp.v + YPrefix6/YVpn/YLu/YFlow4.v (MP_REACH / '
+               'MP_UNREACH of IPv6 unicast, VPNv4/6, labeled unicast, IPv4 flow specification), YCommunity/YExtCom/'
+               'YLargeCom.v (communities from API text).  The models are tied to yabgp by the correspondence runs of '
+               'C14 (YMsg, YOpen), C06 (YPrefix4, YAttr, YUpdate), C07 (YMp and families) and C17 (communities); the '
+               'small-message part and the witnesses of the C08_*_refuted theorems are re-run here.  YPrefix4.v models '
+               'the code repaired by build/proposed/c06-prefix-zero-length.diff',
+               'the MP theorems hold under the field ranges written in them as boolean guards (prefix length within '
+               'the address size; label stack not ending in label 0; flow-specification comparison bits within '
+               'LT|GT|EQ); where yabgp does not enforce the range the refuting input is a theorem and a known finding',
+               'an UPDATE that carries MP attributes next to standard ones, add-path UPDATEs as a whole, and every '
+               'constructor without a model (EVPN, SR-TE, IPv6 flow specification, tunnel encapsulation, PMSI) are '
+               'covered by the walker run on the implementation over the generated input space only (test level, '
+               'not proof)',
                'session context the octets do not show (4-octet AS, add-path, Cisco route-refresh type) is '
                'passed to the walker as the same flags that were passed to the constructor']
 IMPORTS = 'From YV Require Import lib.Base spec.Walker.\n'
@@ -669,8 +677,59 @@ def gen_text(ctx):
     return out
 
 
+# finding exposed by the proof attempts C08_mp_{vpn,lu,flow4}_valid (see C08_mp_prefix4_length_refuted):
+# proposed in build/proposed/known_C08_more.json.  Its inputs are generated once the id is registered
+# (known_findings.json, or VERIF_KNOWN_EXTRA while it is being proposed); until then they are only
+# counted in extra['pending_known_inputs_skipped'], so that the verdict of the registered check does
+# not depend on an entry this module cannot add itself.
+PREFIXLEN_ID = 'C08-prefix-length-unchecked'
+NEXTHOP6_ID = 'C08-mpreach6-nexthop-mixed-family'     # seen while reading the (2, 1) branch for C08_mp_ipv6_valid
+
+
+def known_registered(kid):
+    try:
+        return any(k.get('id') == kid for k in common.known_findings('C08'))
+    except Exception:
+        return False
+
+
+def gen_prefixlen(ctx):
+    """prefix texts whose length part is outside the address size (or whose address is of the other family)
+    for the constructors that take the length from int(text): VPNv4, labeled unicast v4, flow specification"""
+    out = []
+    cls = 'prefixlen.unchecked'
+    for l in (33, 40, 64, 128, 167, 255, -8):
+        p = '10.0.0.0/%d' % l
+        out.append(mp(cls, reach={'afi_safi': [1, 128], 'nexthop': {'rd': '0:0', 'str': '10.0.0.1'},
+                                  'nlri': [{'label': [25], 'rd': '100:100', 'prefix': p}]}))
+        out.append(mp(cls, unreach={'afi_safi': [1, 128], 'withdraw': [{'rd': '100:100', 'prefix': p}]}))
+        out.append(mp(cls, reach={'afi_safi': [1, 4], 'nexthop': '10.0.0.1', 'nlri': [{'label': [25], 'prefix': p}]}))
+        out.append(mp(cls, unreach={'afi_safi': [1, 4], 'withdraw': [{'label': [25], 'prefix': p}]}))
+        if l > 0:
+            out.append(mp(cls, reach={'afi_safi': [1, 133], 'nexthop': '', 'nlri': [{1: '192.96.3.0/%d' % l}]}))
+            out.append(mp(cls, unreach={'afi_safi': [1, 133], 'withdraw': [{2: '192.96.3.0/%d' % l}]}))
+    out.append(mp(cls, reach={'afi_safi': [1, 133], 'nexthop': '', 'nlri': [{1: '2001:db8::/32'}]}))
+    for pd in ({'prefix': '2001:db8::/129', 'offset': 0}, {'prefix': '2001:db8::/200', 'offset': 0},
+               {'prefix': '10.0.0.0/64', 'offset': 0}, {'prefix': '2001:db8::/32', 'offset': 40}):
+        out.append(mp(cls, reach={'afi_safi': [2, 133], 'nexthop': '', 'nlri': [{1: pd}]}))
+    return out
+
+
+def gen_nexthop6(ctx):
+    """IPv6 unicast MP_REACH_NLRI whose global / link-local next hops are not both IPv6 addresses"""
+    cls = 'v6.nexthop.mixed'
+    return [mp(cls, reach={'afi_safi': [2, 1], 'nexthop': g, 'linklocal_nexthop': ll, 'nlri': ['2001:db8::/32']})
+            for (g, ll) in (('10.0.0.1', 'fe80::1'), ('2001:db8::1', '169.254.0.1'), ('10.0.0.1', '169.254.0.1'))]
+
+
 def generate(ctx):
     cases = gen_small(ctx) + gen_open(ctx) + gen_v4(ctx) + gen_mp(ctx) + gen_text(ctx)
+    generate.pending_skipped = 0
+    for kid, pending in ((PREFIXLEN_ID, gen_prefixlen(ctx)), (NEXTHOP6_ID, gen_nexthop6(ctx))):
+        if known_registered(kid):
+            cases += pending
+        else:
+            generate.pending_skipped += len(pending)
     # the committed corpus of earlier failures runs first
     corpus = []
     d = os.path.join(common.VERIF, 'findings')
@@ -702,6 +761,41 @@ def _mp_nlri(inp):
             n = v.get(key)
             res.append((tuple(v['afi_safi']), n if isinstance(n, list) else [n]))
     return res
+
+
+def _split_prefix(text):
+    """(address version or None, length or None) of 'addr/len' text, without interpreting more than the code does"""
+    import netaddr
+    try:
+        a, l = text.split('/')
+        return netaddr.IPAddress(a).version, int(l)
+    except Exception:
+        return None, None
+
+
+def _prefix_out_of_range(fam, n):
+    """input class of C08-prefix-length-unchecked: a prefix whose length part (or offset) is outside the address
+    size of the family, or whose address is of the other family, given to a constructor that does not check:
+    NLRI.construct_prefix_v4 (VPNv4, labeled unicast v4), IPv4FlowSpec / IPv6FlowSpec.construct_prefix"""
+    if fam in ((1, 128), (1, 4)) and isinstance(n.get('prefix'), str):
+        ver, l = _split_prefix(n['prefix'])
+        return l is not None and not 0 <= l <= 32
+    if fam == (1, 133):
+        for t in (1, 2, '1', '2'):
+            if isinstance(n.get(t), str):
+                ver, l = _split_prefix(n[t])
+                if l is not None and (ver != 4 or not 0 <= l <= 32):
+                    return True
+    if fam == (2, 133):
+        for t in (1, 2, '1', '2'):
+            pd = n.get(t)
+            if isinstance(pd, dict) and isinstance(pd.get('prefix'), str):
+                ver, l = _split_prefix(pd['prefix'])
+                off = pd.get('offset', 0)
+                if l is not None and (ver != 6 or not 0 <= l <= 128 or
+                                      (isinstance(off, int) and not 0 <= off <= l)):
+                    return True
+    return False
 
 
 def classify(kind, inp, msg):
@@ -742,6 +836,19 @@ def classify(kind, inp, msg):
             if fam == (25, 70) and isinstance(n, dict) and n.get('type') in (3, 4) and \
                     isinstance(n.get('value'), dict) and not n['value'].get('ip'):
                 return 'C08-evpn-originator-ip-missing'
+    for (fam, nl) in fams:
+        for n in nl:
+            if isinstance(n, dict) and _prefix_out_of_range(fam, n):
+                return PREFIXLEN_ID
+    r = _attr(inp, 14)
+    if isinstance(r, dict) and tuple(r.get('afi_safi', ())) == (2, 1) and r.get('linklocal_nexthop'):
+        import netaddr
+        try:
+            vs = [netaddr.IPAddress(r[k]).version for k in ('nexthop', 'linklocal_nexthop')]
+        except Exception:
+            vs = [6, 6]
+        if vs != [6, 6]:
+            return NEXTHOP6_ID
     for (fam, nl) in fams:
         for n in nl:
             if not isinstance(n, dict):
@@ -812,6 +919,56 @@ def correspondence_small(ctx):
     return len(cs), mism
 
 
+WITNESS_IMPORTS = ('From YV Require Import lib.Base gen.Consts model.YMp model.YLabel model.YVpn model.YLu '
+                   'model.YFlow4.\n')
+
+
+def correspondence_witnesses(ctx):
+    """the inputs of C08_mp_prefix4_length_refuted / C08_mp_label0_refuted: the model's octets are the
+    implementation's (the refutations are about yabgp, not about a modelling slip)"""
+    from yabgp.message.attribute.mpreachnlri import MpReachNLRI
+    from yabgp.message.attribute.mpunreachnlri import MpUnReachNLRI
+    from session import Bytes, coq_sx
+    vnh = {'rd': '0:0', 'str': '10.0.0.1'}
+    v40 = {'label': [25], 'rd': '100:100', 'prefix': '10.0.0.0/40'}
+    l40 = {'label': [25], 'prefix': '10.0.0.0/40'}
+    ws = [
+        ('sx_res SB (reachvpn_construct false 0 0 167772161 [mk_vroute [25] (RdAs 100 100) 167772160 40])',
+         MpReachNLRI, {'afi_safi': (1, 128), 'nexthop': vnh, 'nlri': [v40]}, False),
+        ('sx_res sx_optbytes (unreachvpn_construct false [mk_vroute [25] (RdAs 100 100) 167772160 40])',
+         MpUnReachNLRI, {'afi_safi': (1, 128), 'withdraw': [v40]}, True),
+        ('sx_res sx_optbytes (reachlu_construct false 167772161 [mk_lroute [25] 167772160 40])',
+         MpReachNLRI, {'afi_safi': (1, 4), 'nexthop': '10.0.0.1', 'nlri': [l40]}, True),
+        ('sx_res sx_optbytes (unreachlu_construct false [mk_lroute [25] 167772160 40])',
+         MpUnReachNLRI, {'afi_safi': (1, 4), 'withdraw': [l40]}, True),
+        ('sx_res sx_optbytes (reachfs_construct None [mk_flow (Some (3227517696, 33)) None []])',
+         MpReachNLRI, {'afi_safi': (1, 133), 'nexthop': '', 'nlri': [{1: '192.96.3.0/33'}]}, True),
+        ('sx_res sx_optbytes (unreachfs_construct [mk_flow (Some (3227517696, 33)) None []])',
+         MpUnReachNLRI, {'afi_safi': (1, 133), 'withdraw': [{1: '192.96.3.0/33'}]}, True),
+        ('sx_res SB (reachvpn_construct false 0 0 167772161 [mk_vroute [0] (RdAs 100 1) 167772160 8])',
+         MpReachNLRI, {'afi_safi': (1, 128), 'nexthop': vnh,
+                       'nlri': [{'label': [0], 'rd': '100:1', 'prefix': '10.0.0.0/8'}]}, False),
+        ('sx_res sx_optbytes (reachlu_construct false 167772161 [mk_lroute [0] 3221225472 8])',
+         MpReachNLRI, {'afi_safi': (1, 4), 'nexthop': '10.0.0.1', 'nlri': [{'label': [0], 'prefix': '192.0.0.0/8'}]}, True),
+    ]
+    rows, descr = [], []
+    for expr, klass, value, optional in ws:
+        try:
+            v = klass.construct(value)
+            impl = [0, (Bytes(v) if v is not None else None)] if optional or v is not None else [0, None]
+        except Exception:
+            impl = [2]
+        rows.append('(%s, %s)' % (expr, coq_sx(impl)))
+        descr.append((klass.__name__, value))
+    text = 'Definition cases : list (sx * sx) := [\n%s\n].\nEval vm_compute in (mismatches cases).\n' % ';\n'.join(rows)
+    (rc, out), = common.coq_eval_shards(ctx.prop, [text], imports=WITNESS_IMPORTS)
+    idx = common.parse_nats(out)
+    if rc != 0 or idx is None:
+        return len(ws), [{'what': 'witness case file does not evaluate: %s' % common.first_error(out)}]
+    return len(ws), [{'what': 'model and implementation differ on the witness of a C08 refutation: %s.construct(%r)'
+                              % descr[i], 'input': repr(descr[i])} for i in idx]
+
+
 def run(ctx):
     cases = generate(ctx)
     msgs, n_exc, n_none, exc_kinds = run_constructors(cases)
@@ -821,8 +978,11 @@ def run(ctx):
         walker_ok = rc == 0
     mism, viol = [], []
     n_corr = 0
+    n_wit = 0
     if ctx.coq_ok:
         n_corr, mism = correspondence_small(ctx)
+        n_wit, m2 = correspondence_witnesses(ctx)
+        mism = mism + m2
     bad, errors = ([], ['spec/Walker.v does not compile']) if not walker_ok else walker_invalid(ctx, cases, msgs)
     for e in errors:
         mism.append({'what': e})
@@ -843,7 +1003,7 @@ def run(ctx):
         classes[cls] = classes.get(cls, 0) + 1
     distinct = len({(cases[i][0], json.dumps(cases[i][2], sort_keys=True)) for (i, m) in msgs if m is not None})
     return {
-        'evaluations': len(cases) + n_corr, 'distinct': distinct,
+        'evaluations': len(cases) + n_corr + n_wit, 'distinct': distinct,
         'rule': 'constructor inputs: exhaustive prefix lengths (0..32, 0..128) for every family, every attribute '
                 'at its length/width boundaries (255/256 octets, 2^16, 2^32), capability subsets, every SR-policy '
                 'sub-TLV and segment kind, flowspec components/operators, EVPN route and ESI types, seeded '
@@ -857,6 +1017,8 @@ def run(ctx):
         'extra': {'constructor_calls': len(cases), 'messages_walked': len(msgs), 'raised_exception': n_exc,
                   'returned_none': n_none, 'exception_types': exc_kinds, 'input_classes': classes,
                   'invalid_by_class': per_class, 'correspondence_cases_small': n_corr,
+                  'correspondence_refutation_witnesses': n_wit,
+                  'pending_known_inputs_skipped': getattr(generate, 'pending_skipped', 0),
                   'free_text': {'string_fields_mutated': getattr(gen_text, 'leaves', 0),
                                 'unusual_texts': len(UNUSUAL_TEXT),
                                 'policy_names': len(POLICY_NAMES),
